@@ -36,6 +36,49 @@ def conv(t):
     raise AnalysisError(f"table entry is not constant: {t!r}"[:200])
 
 
+
+def boot_files_creator(repo):
+    """The function that builds the storage and writes the per-domain files: by its name, or - renamed / re-signed - the one private
+    function of the module that create_files_for_boot calls."""
+    f = repo.find_func(IMG, "ImageCreator._create_suit_storage_files_for_boot")
+    if f is not None:
+        return f
+    top = repo.func(IMG, "ImageCreator.create_files_for_boot")
+    m = repo.mod(IMG)
+    cands = {}
+    for n in ast.walk(top.node):
+        if isinstance(n, ast.Call):
+            nm = n.func.attr if isinstance(n.func, ast.Attribute) else (n.func.id if isinstance(n.func, ast.Name) else None)
+            if nm and nm.startswith("_") and not nm.startswith("__"):
+                for q, g in m.functions.items():
+                    if q.rsplit(".", 1)[-1] == nm:
+                        cands[id(g)] = g
+    if len(cands) != 1:
+        raise AnalysisError(f"anchor function {IMG}:ImageCreator._create_suit_storage_files_for_boot vanished ({len(cands)} candidates by role)")
+    return next(iter(cands.values()))
+
+
+def slot_lookup(repo, ev):
+    """The lookup that returns a slot (offset, size) of the layout: by its name, or - renamed / re-signed - the one private method
+    of the storage class whose result holds an entry's 'offset' and 'size'."""
+    f = repo.find_func(IMG, "EnvelopeStorage._find_slot")
+    if f is not None:
+        return f
+    cands = []
+    for n, g in repo.cls(IMG, "EnvelopeStorage").methods.items():
+        if not n.startswith("_") or n.startswith("__") or g in cands:
+            continue
+        try:
+            vals = [o.value for o in ev.outcomes(g) if o.kind == "return" and o.value is not None]
+        except AnalysisError:
+            continue
+        keys = {s_.args[1].v for v in vals for s_ in subterms(v) if isinstance(s_, App) and s_.op == "idx" and isinstance(s_.args[1], Const)}
+        if {"offset", "size"} <= keys:
+            cands.append(g)
+    if len(cands) != 1:
+        raise AnalysisError(f"anchor function {IMG}:EnvelopeStorage._find_slot vanished ({len(cands)} candidates by role)")
+    return cands[0]
+
 def run(ctx):
     generic.kwargs_keys_are_dests(ctx, "C07-D6b keyword reads are option destinations", "suit_generator.cmd_image")
     R = ctx.report
@@ -49,7 +92,7 @@ def run(ctx):
     R.rule("C07-D7 argument plumbing", 4, "CLI options reach the parameters of the same name")
     n = argname.check_function(ctx, "C07-D7 argument plumbing", repo.func(IMG, "main"))
     n += argname.check_function(ctx, "C07-D7 argument plumbing", repo.func(IMG, "ImageCreator.create_files_for_boot"))
-    n += argname.check_function(ctx, "C07-D7 argument plumbing", repo.func(IMG, "ImageCreator._create_suit_storage_files_for_boot"))
+    n += argname.check_function(ctx, "C07-D7 argument plumbing", boot_files_creator(repo))
     if n < 4:
         raise AnalysisError("cmd_image boot path: named bindings not recognised")
 
@@ -260,7 +303,10 @@ def add_envelope_rules(ctx):
         want_g = ge0_form(App(">", (ln, size[0]))) if size and ln in c.args else None
         # the slot may also be a NamedTuple / dataclass returned by the lookup: the field that holds entry['size']
         size_fields = set()
-        fs_ = repo.find_func(IMG, "EnvelopeStorage._find_slot")
+        try:
+            fs_ = slot_lookup(repo, ev)
+        except AnalysisError:
+            fs_ = None
         for x_ in (ev.outcomes(fs_) if fs_ else ()):
             if x_.kind == "return" and x_.value is not None:
                 for _g, alt_ in cases(x_.value):
@@ -290,7 +336,7 @@ def add_envelope_rules(ctx):
         R.check("C07-D3b duplicate role", c.args[0] == role_t, "role tested = role committed", mod=fi.module, node=dup.node, function=fq,
                 expected=repr(role_t)[:100], found=repr(c.args[0])[:100])
     # _find_slot: returns (offset, size) of the entry whose role matches
-    fs = repo.func(IMG, "EnvelopeStorage._find_slot")
+    fs = slot_lookup(repo, ev)
     fo = ev.outcomes(fs)
     R.rule("C07-D3c slot lookup", 1, "the slot returned belongs to the role of the class id")
     good = False
@@ -389,7 +435,7 @@ def placement_rules(ctx):
 def _per_domain_files_unrolled(ctx):
     from sa.teval import teval, Unknown
     R, repo = ctx.report, ctx.repo
-    fi = repo.func(IMG, "ImageCreator._create_suit_storage_files_for_boot")
+    fi = boot_files_creator(repo)
     fq = ctx.fq(fi)
     evi = Evaluator(repo, inline_depth=1, inline_filter=lambda f: f.name == "_create_single_domain_storage_file_for_boot")
     outs = [o for o in evi.outcomes(fi) if o.kind == "return"]
@@ -461,7 +507,7 @@ def ordering_rules(ctx):
     repo = ctx.repo
     ev = Evaluator(repo, inline_depth=0)
     R.rule("C07-D3d add before write", 3, "every envelope is added (all rejections possible) before the first file is written")
-    fi = repo.func(IMG, "ImageCreator._create_suit_storage_files_for_boot")
+    fi = boot_files_creator(repo)
     fq = ctx.fq(fi)
     outs = [o for o in ev.outcomes(fi) if o.kind == "return"]
     outs = generic.sole_outcome(ctx, outs, f"{fq}: expected one outcome")
@@ -488,7 +534,10 @@ def ordering_rules(ctx):
     R.check("C07-D3d add before write", len(adds) == 1 and adds[0].args[1] == App("elem", (P("envelopes"),)), "every input envelope is added",
             mod=fi.module, node=fi.node, function=fq, expected="storage.add_envelope(envelope) for envelope in envelopes", found=repr(adds)[:200])
     top = repo.func(IMG, "ImageCreator.create_files_for_boot")
-    touts = [o for o in ev.outcomes(top) if o.kind == "return"]
+    creator_ = boot_files_creator(repo)
+    ev_top = Evaluator(repo, inline_depth=0)
+    ev_top.never_inline = {creator_.fq}  # examined on its own above: kept as a call here, whatever it is called
+    touts = [o for o in ev_top.outcomes(top) if o.kind == "return"]
     touts = generic.sole_outcome(ctx, touts, f"{ctx.fq(top)}: expected one normal outcome")
     writes = [e for e in all_effects(touts[0].effects) if isinstance(e, App) and (e.op == "eff:write" or (
         e.op == "eff:open" and len(e.args) > 1 and isinstance(e.args[1], Const) and isinstance(e.args[1].v, str) and set(e.args[1].v) & set("wax+"))
@@ -499,9 +548,9 @@ def ordering_rules(ctx):
         return c.args[0].obj.name if c.op == "call" and isinstance(c.args[0], Ref) and hasattr(c.args[0].obj, "name") else c.op
     for seq in flatten_effects(touts[0].effects, twice=True):
         names = [fname(e.args[0]) for e in seq if isinstance(e, App) and e.op == "eff:call" and isinstance(e.args[0], App)]
-        if "_create_suit_storage_files_for_boot" in names:
+        if creator_.name in names:
             saw = True
-            i_create = names.index("_create_suit_storage_files_for_boot")
+            i_create = names.index(creator_.name)
             loads = [i for i, n in enumerate(names) if n == "load"]
             severs = [i for i, n in enumerate(names) if n == "sever"]
             if loads:
